@@ -2,7 +2,7 @@ let () =
   try
     while true do
       let line = input_line stdin in
-      let toks = Array.of_list (List.filter (fun s -> s <> "") (String.split_on_char ' ' line)) in
+      let toks = Array.of_list (List.filter (fun s -> s <> "") (Stdlib.String.split_on_char ' ' line)) in
       if Array.length toks = 0 then print_newline ()
       else begin
         (try print_string (Ops.dispatch toks) with
